@@ -1,6 +1,7 @@
 import FrappyDrive.Util
 import FrappyModel.Spec.C07
 import FrappyModel.Wire.Dispatch
+import FrappyModel.Wire.ErrText
 import FrappyModel.Generated.C07
 /- line-protocol glue for C07 (not part of any theorem) -/
 namespace Frappy.Drive.C07
@@ -170,8 +171,10 @@ def handle (j : Json) : R Json := do
       let r := serveF tables L (scripted script) ⟨n, true⟩ [] 0 chunks
       let one := serveF tables L (scripted script) ⟨n, true⟩ [] 0 [chunks.flatten]
       return Json.mkObj [("outs", jarr (r.outs.map (outJson L))), ("ncalls", jnat r.st), ("done", jnat r.done),
+        ("torn", jopt (outJson L) r.torn), ("running", Json.bool r.sock.running),
         ("calls", jarr ((callsOf tables L ((feedAll [] chunks).lines.take r.done)).map tripleJson)),
-        ("same_as_unsegmented", Json.bool ((wire L r.outs == wire L one.outs) && r.done == one.done && r.st == one.st))]
+        ("same_as_unsegmented", Json.bool ((wire L r.outs == wire L one.outs) && r.done == one.done && r.st == one.st
+          && r.torn == one.torn))]
     let r := serve tables L (scripted script) [] 0 chunks
     let one := serve tables L (scripted script) [] 0 [chunks.flatten]
     return Json.mkObj [("outs", jarr (r.outs.map (outJson L))), ("rest", jhex r.buf), ("ncalls", jnat r.st),
@@ -189,6 +192,25 @@ def handle (j : Json) : R Json := do
     let stream ← fldHex j "stream"
     let outs ← (← fldArr j "outs").mapM (fun c => do unhex (← c.getStr?))
     return Json.mkObj [("bad", verdictJson (judgeGone tables stream outs))]
+  | "judge_received" =>
+    -- what the peer has received (all bytes that went out, in order), cut at its newlines in Lean
+    let stream ← fldHex j "stream"
+    let received ← fldHex j "received"
+    let flags ← (← fldArr j "flags").mapM (fun e => do
+      match ← arr e with
+      | [a, b] => return (← a.getBool?, ← b.getBool?)
+      | _ => throw "bad flag entry")
+    let got := splitLines received
+    if flags.length != got.lines.length then throw "judge_received: one pair of flags per complete line expected"
+    return Json.mkObj [("bad", verdictJson (judgeReceived tables stream received flags)),
+      ("lines", jnat got.lines.length), ("rest", jhex got.rest)]
+  | "errtext" =>
+    -- the text of error reports: `str(err)` for errors as driver code raises them
+    let errs ← (← fldArr j "errors").mapM (fun e => do
+      let args ← (← fldArr e "args").mapM (fun a => do return (⟨← fldHex a "s", ← fldHex a "r"⟩ : ErrArg))
+      let methods ← (← fldArr e "methods").mapM (fun m => do unhex (← m.getStr?))
+      return (⟨← fldBool e "registered", ← fldHex e "tname", methods, args⟩ : ErrInfo))
+    return Json.mkObj [("texts", jarr (errs.map (fun e => jhex (errText e))))]
   | "judge_events" =>
     let outs ← (← fldArr j "outs").mapM (fun c => do unhex (← c.getStr?))
     let subs ← (← fldArr j "subscribed").mapM (fun c => do unhex (← c.getStr?))
